@@ -364,13 +364,6 @@ def known_class(ver, req_tokens, d):
     40af3df are gone: a recurrence is a violation.)"""
     if d is None or d.get("b") != 0:
         return None
-    if ver != 1 and d.get("rc") == CIF_DISALLOWED_VALUE:
-        # write_table reserves room for ' key':  only (code points + 4): a key that is written triple-quoted, or holds
-        # supplementary characters, can end in the last column, and its colon is then refused although the key is quotable
-        keys = request_strings(req_tokens)[2]
-        if keys and all(key_quotable(k) for k in keys):
-            return "quotable-table-key-refused-at-line-end"
-        return None
     if d.get("rc") != 0:
         return None
     if check_output(ver, req_tokens, d) is None:
